@@ -2,10 +2,10 @@
 From Coq Require Extraction ExtrOcamlBasic.
 From Coq Require Import ZArith List.
 From Flocq Require Import BinarySingleNaN.
-From CanVerif Require Import Can.Data Descriptor.Types Descriptor.Physical Gen.Message Gen.History Gen.HistoryPhys Gen.ClassCheck.
+From CanVerif Require Import Can.Data Descriptor.Types Descriptor.Physical Gen.Message Gen.History Gen.HistoryPhys Gen.ClassCheck Gen.Api.
 Extraction Language OCaml.
 Extraction "model.ml"
   frame_of unmarshal reset_state copy_from dispatch raw_set raw_set_value step frame_valid inv in_range
   signal_super_type signal_prim_type read_field write_field mux_index raw_lo raw_hi
-  phys_set phys_set_value phys_okb in_theorem_class
+  phys_set phys_set_value phys_okb phys_get getter_physical bits_of_f64 has_physical in_theorem_class
   Z.add Z.mul Z.sub Z.ltb Z.leb Z.eqb Z.of_nat Z.to_nat Z.pow Z.modulo Z.div Z.land Z.lor.
